@@ -13,10 +13,12 @@ import (
 	"net"
 	"net/http"
 	"os"
+	"os/exec"
 	"path/filepath"
 	"regexp"
 	"sort"
 	"strings"
+	"syscall"
 	"testing"
 	"time"
 
@@ -437,6 +439,31 @@ func TestVerifC11(t *testing.T) {
 		if public || route == "/" {
 			continue
 		}
+		// Methods in non-canonical letter case must not pass the method guard
+		// (and thereby skip the content-type guard) of a mutating endpoint.
+		if declared == "POST" || declared == "PUT" || declared == "DELETE" {
+			for _, m := range []string{strings.ToLower(declared), declared[:1] + strings.ToLower(declared[1:])} {
+				for _, c := range creds {
+					if !c.valid {
+						continue
+					}
+					r := c11Raw(in.WebPort, m, route, func() map[string]string {
+						h := map[string]string{"Content-Type": "text/plain"}
+						for k, v := range c.hdrs {
+							h[k] = v
+						}
+
+						return h
+					}(), "not-json")
+					rep.Eval(true, strings.Join([]string{route, m, "text/plain", c.name, "method-case"}, "|"))
+					rep.Class("guard_method_letter_case")
+					if r.Status != 405 && r.Status != 415 && r.Status != 400 && r.Status != 501 {
+						rep.Violate("method-guard-letter-case:"+route, fmt.Sprintf("%s (declared %s) answered %d to method %q with a text/plain body", route, declared, r.Status, m),
+							map[string]any{"route": route, "method_sent": m, "credentials": c.name, "status": r.Status, "body_head": sysTail(r.Body, 200)})
+					}
+				}
+			}
+		}
 		// Path spellings that normalise to the protected path.
 		spellings := map[string]string{
 			"doubled-slash":  "/" + route,
@@ -501,5 +528,108 @@ func TestVerifC11(t *testing.T) {
 	}
 	if in.Exited() {
 		rep.Violate("server-exit", "server exited during the sweep", map[string]any{"log_tail": sysTail(in.Log(), 4000)})
+	}
+	c11InstallPhase(rep, routes, methods)
+}
+
+// c11InstallPhase starts a fresh, unconfigured instance, creates the
+// administrator through the first-run API and, WITHOUT a restart, requires
+// every protected route to refuse requests without valid credentials.
+func c11InstallPhase(rep *verifkit.Report, routes []string, methods map[string]string) {
+	bin := os.Getenv("VERIF_AGH_BIN")
+	dir, err := os.MkdirTemp(os.Getenv("VERIF_SCRATCH"), "agh-install-")
+	if err != nil {
+		rep.Inconcl(err.Error())
+
+		return
+	}
+	defer os.RemoveAll(dir)
+	in := &sysInst{Dir: dir, WebPort: verifkit.FreePort(), done: make(chan struct{})}
+	in.DNSPort = verifkit.FreePort()
+	in.LogPath = filepath.Join(dir, "agh-install.log")
+	lf, _ := os.Create(in.LogPath)
+	in.cmd = exec.Command(bin, "-w", dir, "--web-addr", fmt.Sprintf("127.0.0.1:%d", in.WebPort), "--no-check-update", "--no-permcheck")
+	in.cmd.Stdout, in.cmd.Stderr = lf, lf
+	in.cmd.SysProcAttr = &syscall.SysProcAttr{Setpgid: true}
+	if err = in.cmd.Start(); err != nil {
+		rep.Inconcl("install phase start: " + err.Error())
+
+		return
+	}
+	go func() { in.waitErr = in.cmd.Wait(); _ = lf.Close(); close(in.done) }()
+	defer in.Kill()
+	in.client = &http.Client{Timeout: 30 * time.Second}
+	up := false
+	for i := 0; i < 200 && !in.Exited(); i++ {
+		if st, _, e := in.APIWith("GET", "/control/install/get_addresses", nil, false); e == nil && st == 200 {
+			up = true
+
+			break
+		}
+		time.Sleep(50 * time.Millisecond)
+	}
+	if !up {
+		rep.Inconcl("install phase: first-run API did not come up: " + sysTail(in.Log(), 500))
+
+		return
+	}
+	body := map[string]any{"username": sysUser, "password": sysPass,
+		"web": map[string]any{"ip": "127.0.0.1", "port": in.WebPort}, "dns": map[string]any{"ip": "127.0.0.1", "port": in.DNSPort}}
+	if st, b, e := in.APIWith("POST", "/control/install/configure", body, false); e != nil || st != 200 {
+		rep.Inconcl(fmt.Sprintf("install/configure: %d %v %s", st, e, sysTail(string(b), 300)))
+
+		return
+	}
+	ok := false
+	for i := 0; i < 200 && !in.Exited(); i++ {
+		if st, _, e := in.API("GET", "/control/status", nil); e == nil && st == 200 {
+			ok = true
+
+			break
+		}
+		time.Sleep(50 * time.Millisecond)
+	}
+	if !ok {
+		rep.Inconcl("install phase: server not reachable with the new credentials after configure: " + sysTail(in.Log(), 500))
+
+		return
+	}
+	rep.Event("install_phase_administrator_created_at_run_time")
+	for _, route := range routes {
+		if c11IsPublic(route) || strings.HasPrefix(route, "/control/install/") {
+			continue
+		}
+		m := methods[route]
+		if m == "" {
+			m = "GET"
+		}
+		target := route
+		if route == "/" {
+			target = "/index.html"
+		}
+		for _, c := range []struct {
+			name string
+			hdrs map[string]string
+		}{{"none", map[string]string{}}, {"unknown-cookie", map[string]string{"Cookie": "agh_session=" + strings.Repeat("ef", 16)}},
+			{"wrong-basic", map[string]string{"Authorization": "Basic " + base64.StdEncoding.EncodeToString([]byte(sysUser+":nope"))}}} {
+			hdrs := map[string]string{}
+			for k, v := range c.hdrs {
+				hdrs[k] = v
+			}
+			bodyStr := ""
+			if m != "GET" {
+				hdrs["Content-Type"] = "application/json"
+				bodyStr = "{}"
+			}
+			r := c11Raw(in.WebPort, m, target, hdrs, bodyStr)
+			rep.Eval(true, "install|"+route+"|"+m+"|"+c.name)
+			rep.Class("install_phase_unauthenticated_requests")
+			okResp := r.Status == 403 || (r.Status == 302 && strings.HasSuffix(r.Location, "login.html") && route == "/")
+			if !okResp && !(r.Err != "" && r.Status == 0) {
+				rep.Violate("unauthenticated-not-refused:after-install-without-restart:"+c.name,
+					fmt.Sprintf("after the administrator was created through the first-run API (no restart) %s %s without valid credentials answered %d", m, route, r.Status),
+					map[string]any{"route": route, "method": m, "credentials": c.name, "status": r.Status, "body_head": sysTail(r.Body, 200)})
+			}
+		}
 	}
 }
